@@ -56,6 +56,17 @@ def run_check(prop: str, tier: str, repo: Repo = None, write: bool = True, quiet
         except Exception as e:  # exploration only: never decides the check
             ck.sweep = {"error": f"{type(e).__name__}: {e}"}
         try:
+            from . import nfcheck
+
+            nr = nfcheck.run()
+            ck.nfcheck = nr
+            ck.counts["normal_form_mutants"] = nr["mutants"]
+            ck.evaluations += nr["mutants"]
+            for h in nr["unexplained"]:
+                ck.errors.append(f"normal form: a behaviour-changing mutant has the reference's normal form (unsound rewrite): {h}")
+        except Exception as e:
+            ck.nfcheck = {"error": f"{type(e).__name__}: {e}"}
+        try:
             from . import benign
 
             b = benign.sweep(prop, ANCHORS.get(prop, []), root=repo.root)
